@@ -25,6 +25,125 @@ type c14case struct {
 	Ast  *AST   `json:"ast,omitempty"`  // eq
 	Elem *Abs   `json:"elem,omitempty"` // eq: the element the script is matched against
 	Wrap int    `json:"wrap,omitempty"` // eq: 1 = the tree of interest is ast.l (an arithmetic tree compared with a constant)
+	Items []Item `json:"items,omitempty"` // txt: the script text as items (the TLA+ side derives the intended tree from them)
+}
+
+// Item of a script text: an operand atom (constant), an operator, a ! marker or a parenthesised group.
+type Item struct {
+	K string `json:"k"` // "atom" | "op" | "not" | "grp"
+	T *AST   `json:"t,omitempty"`
+	O string `json:"o,omitempty"`
+	G []Item `json:"g,omitempty"`
+}
+
+// MarshalJSON writes only the fields of the item kind.
+func (it Item) MarshalJSON() ([]byte, error) {
+	switch it.K {
+	case "atom":
+		return json.Marshal(map[string]any{"k": it.K, "t": it.T})
+	case "op":
+		return json.Marshal(map[string]any{"k": it.K, "o": it.O})
+	case "grp":
+		return json.Marshal(map[string]any{"k": it.K, "g": it.G})
+	}
+	return json.Marshal(map[string]any{"k": it.K})
+}
+
+func renderItems(items []Item) string {
+	var b strings.Builder
+	for _, it := range items {
+		switch it.K {
+		case "atom":
+			b.WriteString(it.T.Text())
+		case "op":
+			b.WriteString(" " + it.O + " ")
+		case "not":
+			b.WriteString("!")
+		case "grp":
+			b.WriteString("(" + renderItems(it.G) + ")")
+		}
+	}
+	return b.String()
+}
+
+// runTxt: a script TEXT is parsed (three entry points), printed, parsed again, printed again; both parses are evaluated.
+func runTxt(c *c14case) []*c14event {
+	text := renderItems(c.Items)
+	if c.K == "txt" {
+		return runTxt(c)
+	}
+	elem := c.Elem.Simple()
+	match := func(f func() bool) (r int) {
+		defer func() {
+			if rec := recover(); rec != nil {
+				r = 2
+			}
+		}()
+		if f() {
+			return 1
+		}
+		return 0
+	}
+	type parsed struct {
+		str  func() string
+		eval func() bool
+	}
+	parsers := []struct {
+		form string
+		src  string
+		p    func(s string) (*parsed, error)
+	}{
+		{"ParseString.filter", "$[?(" + text + ")]", func(s string) (*parsed, error) {
+			y, err := jp.ParseString(s)
+			if err != nil {
+				return nil, err
+			}
+			return &parsed{y.String, func() bool { return len(y.Get([]any{elem})) == 1 }}, nil
+		}},
+		{"NewFilter", "[?(" + text + ")]", func(s string) (*parsed, error) {
+			f, err := jp.NewFilter(s)
+			if err != nil {
+				return nil, err
+			}
+			return &parsed{f.String, func() bool { return len(jp.Expr{jp.Root('$'), f}.Get([]any{elem})) == 1 }}, nil
+		}},
+		{"NewScript", "(" + text + ")", func(s string) (*parsed, error) {
+			sc, err := jp.NewScript(s)
+			if err != nil {
+				return nil, err
+			}
+			return &parsed{sc.String, func() bool { return sc.Match(elem) }}, nil
+		}},
+	}
+	var evs []*c14event
+	for _, ps := range parsers {
+		ev := &c14event{K: "txt", Cell: c.Cell, Form: ps.form, Elem: c.Elem, Mo: -1, Mr: -1, Case: c, S1: []int{}, S2: []int{}, Eo: []string{}, Er: []string{}, Eos: []string{}, Ers: []string{}}
+		p1, err := ps.p(ps.src)
+		if err != nil {
+			ev.Perr, ev.Pmsg = 1, clip("text: "+err.Error())
+			ev.S1 = ints(ps.src)
+			evs = append(evs, ev)
+			continue
+		}
+		s1, perr := safeStr(p1.str)
+		ev.S1 = ints(s1)
+		ev.Mo = match(p1.eval)
+		ev.Eo = []string{fmt.Sprint(ev.Mo)}
+		ev.Eos = ev.Eo
+		if perr != "" {
+			ev.Perr, ev.Pmsg = 2, perr
+		} else if p2, err := ps.p(s1); err != nil {
+			ev.Perr, ev.Pmsg = 1, clip(err.Error())
+		} else {
+			s2, _ := safeStr(p2.str)
+			ev.S2 = ints(s2)
+			ev.Mr = match(p2.eval)
+			ev.Er = []string{fmt.Sprint(ev.Mr)}
+			ev.Ers = ev.Er
+		}
+		evs = append(evs, ev)
+	}
+	return evs
 }
 
 type c14event struct {
